@@ -628,4 +628,97 @@ example :
         [.io 1, .pend, .io 2, .fail, .io 1, .io 1, .pend, .io 9, .io 9, .pend, .io 9, .io 9, .io 9], none⟩).1
       = [.ok (some (.u 300)), .ok (some (.b [1, 2])), .ok none] := by rfl
 
+/-! ## `set_max_len` while a frame is in flight -/
+
+/-- `maxLen` replaced. -/
+def withMax (k : Nat) (r : ARCore) : ARCore := { r with maxLen := k }
+
+theorem settle_readVal_max (c : Codec α) (r : ARCore) (o k : Nat) (h : r.state = .readVal o) :
+    (withMax k r).settle c = (match r.settle c with
+      | .want r' => .want (withMax k r')
+      | .ret out r' => .ret out (withMax k r')) := by
+  unfold ARCore.settle withMax
+  simp only [h]
+  split
+  · rfl
+  · simp only [← h]
+
+theorem settle_readVal_state (c : Codec α) (r r' : ARCore) (o : Nat) (h : r.state = .readVal o)
+    (hs : r.settle c = .want r') : r' = r := by
+  unfold ARCore.settle at hs
+  simp only [h] at hs
+  split at hs
+  · cases hs
+  · injection hs with e; exact e.symm
+
+theorem absorb_readVal (r : ARCore) (o : Nat) (bs : Bytes) (h : r.state = .readVal o) :
+    (r.absorb bs).state = .readVal (o + bs.length) := by
+  unfold ARCore.absorb; simp only [h]
+
+theorem absorb_max (r : ARCore) (k : Nat) (bs : Bytes) : (withMax k r).absorb bs = withMax k (r.absorb bs) := by
+  unfold ARCore.absorb withMax
+  cases r.state <;> rfl
+
+theorem req_max (r : ARCore) (k : Nat) : (withMax k r).req = r.req := by
+  unfold ARCore.req withMax
+  cases r.state <;> rfl
+
+theorem eofRes_max (r : ARCore) (k : Nat) : (withMax k r).eofRes (α := α) = r.eofRes := by
+  unfold ARCore.eofRes withMax
+  cases r.state <;> rfl
+
+/-- **a frame in flight is not affected by `set_max_len`**: once the length prefix has been accepted (state `ReadVal`), the poll loop
+    with any other limit transfers the same bytes, returns the same result and leaves the same reader (up to the limit itself). -/
+theorem pollLoop_readVal_max (c : Codec α) (k : Nat) : ∀ (sc : List Ev) (r : ARCore) (o : Nat) (bytes : Bytes),
+    r.state = .readVal o →
+    pollLoop c (withMax k r) bytes sc =
+      ((pollLoop c r bytes sc).1, withMax k (pollLoop c r bytes sc).2.1, (pollLoop c r bytes sc).2.2) := by
+  intro sc
+  induction sc with
+  | nil => intro r o bytes _; rfl
+  | cons ev sc ih =>
+    intro r o bytes h
+    cases ev with
+    | pend => rfl
+    | intr => rfl
+    | fail => rfl
+    | zero =>
+      show (Poll.ready (withMax k r).eofRes, withMax k r, (⟨bytes, sc⟩ : Src)) = _
+      rw [eofRes_max]; rfl
+    | io n =>
+      unfold pollLoop
+      simp only [req_max, eofRes_max]
+      split
+      · rfl
+      · rw [absorb_max]
+        have hst := absorb_readVal r o (bytes.take (min (min n r.req) bytes.length)) h
+        rw [settle_readVal_max c _ _ k hst]
+        cases hs : (r.absorb (bytes.take (min (min n r.req) bytes.length))).settle c with
+        | ret out r' => rfl
+        | want r' =>
+          have := settle_readVal_state c _ r' _ hst hs
+          subst this
+          exact ih _ _ _ hst
+
+/-- **`set_max_len` between a dropped read and the next one does not tear the frame in flight**: with the payload partly read, the next
+    poll returns what it would have returned, and leaves the reader it would have left, whatever the new limit is. -/
+theorem set_max_len_frame_in_flight (c : Codec α) (rd : AReader) (o k : Nat) (h : rd.core.state = .readVal o) :
+    (rd.setMaxLen k).poll c = ((rd.poll c).1, (rd.poll c).2.setMaxLen k) := by
+  unfold AReader.poll AReader.setMaxLen
+  show (match (withMax k rd.core).settle c with
+    | .ret out core => (Poll.ready out, (⟨core, rd.src⟩ : AReader))
+    | .want core =>
+      let (p, core', src') := pollLoop c core rd.src.bytes rd.src.script
+      (p, ⟨core', src'⟩)) = _
+  rw [settle_readVal_max c rd.core o k h]
+  cases hs : rd.core.settle c with
+  | ret out r' => rfl
+  | want r' =>
+    have := settle_readVal_state c _ r' _ h hs
+    subst this
+    show (let (p, core', src') := pollLoop c (withMax k rd.core) rd.src.bytes rd.src.script
+      (p, (⟨core', src'⟩ : AReader))) = _
+    rw [pollLoop_readVal_max c k _ _ o _ h]
+    rfl
+
 end Minicbor.C15
